@@ -4,7 +4,14 @@
    are for every parameter value (no size bound); n and e range over Z.
    Vocabulary (MockLemmas.v): a property summary is (name, dtype, variable-length?, missing-bearing?);
    req_nprops / req_eprops / req_axes p are the summaries the parameters p ask for;
-   names_ok p says the request is not contradictory (no two properties of one name on one side). *)
+   names_ok p says the request is not contradictory (no two properties of one name on one side); as
+   repaired (fix 30103ad) the generators reject a contradictory request, so names_ok is a CONSEQUENCE of
+   acceptance (C20_rejects_clash) and a conjunct of the acceptance condition, no longer a hypothesis.
+   req_wf p, the hypothesis of the theorems, restricts nothing the interface offers: the keys of each
+   extra-property dict are distinct (a Python dict; the model writes it as a list), and no extra property
+   is given as an object array of arrays (modelled and run by the correspondence -- VObjArray -- but
+   the statements do not speak about such requests).  Explicit arrays of every other dtype are inside:
+   a float16 array is honoured as float32, a bytes array is rejected (item_ok). *)
 From Geff Require Import Base Dtype GraphVal GraphValLemmas Vlen Mock MockLemmas.
 Open Scope Z_scope.
 Open Scope list_scope.
@@ -39,7 +46,7 @@ Proof. exact valid_graph_check. Qed.
 Print Assumptions C20_graph_validation.
 
 (* ---- create_dummy_in_mem_geff: whatever it returns carries exactly the request and is a valid graph *)
-Theorem C20_dummy : forall p g, names_ok p -> 0 <= p_n p -> dummy p = Ok g ->
+Theorem C20_dummy : forall p g, req_wf p -> 0 <= p_n p -> dummy p = Ok g ->
   let v := mem_view g in
   (* exactly the requested nodes, min(requested, possible) edges, directedness, id dtype *)
   (gv_ids v = arange_ids (p_n p) /\
@@ -61,9 +68,18 @@ Theorem C20_dummy : forall p g, names_ok p -> 0 <= p_n p -> dummy p = Ok g ->
 Proof. exact dummy_honours. Qed.
 Print Assumptions C20_dummy.
 
-(* ---- create_mock_geff: the store and the in-memory geff denote the same graph, the store passes
-   structure validation, and the graph carries exactly the request and is valid *)
-Theorem C20_mock : forall p st g, names_ok p -> 0 <= p_n p -> mock p = Ok (st, g) ->
+(* a contradictory request is never accepted (before the fix it was, and the returned geff and the store
+   disagreed on the axis range) *)
+Theorem C20_rejects_clash : forall p g, req_wf p -> dummy p = Ok g -> names_ok p.
+Proof. exact dummy_rejects_clash. Qed.
+Print Assumptions C20_rejects_clash.
+
+(* ---- create_mock_geff: the store and the in-memory geff denote the same graph, and the graph carries
+   exactly the request and is valid.  The second conjunct is DEFINITIONAL (the model's write_arrays ends
+   by matching on the model's validate_structure, so it holds of every store the model returns) and is
+   kept only because the correspondence observes the verdict of the real validate_structure under that
+   name; the statement with content is C20_mock_conformant below. *)
+Theorem C20_mock : forall p st g, req_wf p -> 0 <= p_n p -> mock p = Ok (st, g) ->
   store_view st = mem_view g /\
   validate_structure st = Ok tt /\
   honours p (mem_view g) /\
@@ -101,15 +117,20 @@ Proof. exact honours_flags. Qed.
 Print Assumptions C20_flags.
 
 (* ---- which parameter combinations are accepted, and what exactly is returned ---- *)
-Theorem C20_accepted_iff : forall p g, names_ok p ->
+(* (0 <= num_nodes is a hypothesis: for a negative count numpy raises in linspace / zeros / the length test
+   of an explicit array, which the model, counting in nat, does not reproduce; the correspondence does not
+   send such requests to Coq and the oracle only watches them) *)
+Theorem C20_accepted_iff : forall p g, req_wf p -> 0 <= p_n p ->
   (dummy p = Ok g <->
    exists iddt,
-     (np_dtype (p_id p) = Some iddt /\
-      (is_integer iddt = true -> p_n p <= dt_max iddt + 1) /\                  (* ids 0..n-1 fit the id dtype *)
-      axes_dtypes_ok p (Z.to_nat (p_n p)) /\                                   (* axis dtype names known (ordered if n > 0) *)
-      extras_ok (Z.to_nat (p_n p)) (p_enp p) /\                                (* documented extra node properties *)
-      extras_ok (length (mock_edges (p_directed p) (p_n p) (p_e p))) (p_eep p) /\
-      (p_varlen p = true -> (0 < Z.to_nat (p_n p))%nat)) /\                    (* F01a: no var-length property without nodes *)
+     ((np_dtype (p_id p) = Some iddt /\
+       (is_integer iddt = true -> p_n p <= dt_max iddt + 1) /\                 (* ids 0..n-1 fit the id dtype *)
+       axes_dtypes_ok p (Z.to_nat (p_n p)) /\                                  (* axis dtype names known (ordered if n > 0) *)
+       extras_ok (Z.to_nat (p_n p)) (p_enp p) /\                               (* documented extra node properties *)
+       extras_ok (length (mock_edges (p_directed p) (p_n p) (p_e p))) (p_eep p) /\
+       (p_varlen p = true -> (0 < Z.to_nat (p_n p))%nat) /\                    (* F01a: no var-length property without nodes *)
+       is_numeric iddt = true) /\                                             (* np.arange(n, dtype="str") raises *)
+      names_ok p) /\                                                          (* no extra property named like a generated one *)
      g = spec_geff p iddt).
 Proof. exact dummy_iff. Qed.
 Print Assumptions C20_accepted_iff.
@@ -121,8 +142,8 @@ Print Assumptions C20_mock_accepts.
 
 (* create_mock_geff accepts only what create_dummy_in_mem_geff accepts with an integer id dtype, and
    returns that very in-memory geff *)
-Theorem C20_mock_spec : forall p st g, names_ok p -> mock p = Ok (st, g) ->
-  exists iddt, accepted_params p iddt /\ is_integer iddt = true /\ g = spec_geff p iddt /\
+Theorem C20_mock_spec : forall p st g, req_wf p -> 0 <= p_n p -> mock p = Ok (st, g) ->
+  exists iddt, accepted_params p iddt /\ names_ok p /\ is_integer iddt = true /\ g = spec_geff p iddt /\
                write_arrays g = Ok st /\ store_view st = mem_view g /\ validate_structure st = Ok tt.
 Proof. exact mock_spec. Qed.
 Print Assumptions C20_mock_spec.
@@ -130,7 +151,7 @@ Print Assumptions C20_mock_spec.
 (* ---- the wrappers: every request within the uint64 id range is accepted, is never contradictory,
    and asks for: t (+ z) (+ y, x) as float64 axes, edge properties score: float64 and color: int64 *)
 Theorem C20_wrappers : forall n e d z y x,
-  names_ok (simple_params n e d z y x) /\
+  (req_wf (simple_params n e d z y x) /\ names_ok (simple_params n e d z y x)) /\
   (0 <= n <= 2 ^ 64 -> exists st, mock (simple_params n e d z y x) = Ok (st, spec_geff (simple_params n e d z y x) DU64)) /\
   req_eprops (simple_params n e d z y x) = [("score"%string, DF64, false, false); ("color"%string, DI64, false, false)] /\
   req_nprops (simple_params n e d z y x) =
@@ -143,7 +164,7 @@ Proof. exact wrappers_spec. Qed.
 Print Assumptions C20_wrappers.
 
 Theorem C20_empty : forall d,
-  names_ok (empty_params d) /\
+  (req_wf (empty_params d) /\ names_ok (empty_params d)) /\
   (exists st, empty_geff d = Ok (st, spec_geff (empty_params d) DU64)) /\
   req_nprops (empty_params d) = [] /\ req_eprops (empty_params d) = [] /\ req_axes (empty_params d) = [].
 Proof. exact empty_spec. Qed.
